@@ -500,7 +500,7 @@ example (rest : Bytes) : read toyEnv 27 exCodec (exBytes ++ rest) (Codec.zero to
     (by decide +kernel) (by rfl) (by decide +kernel)
     (by simp [RTOk, exCodec, exValPlain, FieldsOk, Codec.zero, inRange])
     (by
-      simp [Plain, PlainFields, exCodec, exValPlain, Codec.stripPtr, omits]
+      simp [Plain, PlainFields, exCodec, exValPlain, omits]
       intro j h0 h1 h2
       match j with
       | 0 => exact absurd rfl h0
